@@ -1,5 +1,6 @@
 import Ekit.Props.C07
 import Ekit.Props.C07HW
+import Ekit.Props.C07Rev
 #print axioms c07_abq_inv
 #print axioms c07_abq_capacity
 #print axioms c07_abq_mutual_exclusion
@@ -33,3 +34,8 @@ import Ekit.Props.C07HW
 -- the same statements in the classical Herlihy–Wing form (Ekit/Conc/HerlihyWing*.lean)
 #print axioms Ekit.Props.HWForms.c07_abq_hw_linearizable
 #print axioms Ekit.Props.HWForms.c07_lbq_hw_linearizable
+-- review additions (Ekit/Props/C07Rev.lean)
+#print axioms c07_abq_ctx_err_only_if_ctx_ended
+#print axioms c07_lbq_ctx_err_only_if_ctx_ended
+#print axioms c07_abq_ctx_err_response_needs_ended_ctx
+#print axioms c07_lbq_ctx_err_response_needs_ended_ctx
